@@ -9,6 +9,7 @@ import Driver.Bucket
     untar <entries> <faults>                       entries: hexname=c1+c2,...
     atomic <old> <chunks> <failAt>                 old/failAt: "-" for none
     aprefix <old> <chunks> <j>
+    flush <fails bits|->                           -> err|ok + number of outputs flushed
   chunks: c1+c2+... or "-" (no chunk); faults: hexpath:<p|w|c>:<idx>,... or "-".
   The helpers' error plumbing is instantiated with the REGENERATED BufGen.AstFacts.facts.
 -/
@@ -69,6 +70,10 @@ def handle : List String → String
       let r := untarAll fx s ⟨[], []⟩ ents
       res r.1 ++ "|" ++ showDest r.2
     | _, _ => "bad-op"
+  | ["flush", bits] =>
+    let fs := if bits = "-" then [] else bits.toList.map (· == '1')
+    let r := flushOuts fs
+    res r.1 ++ "|flushed=" ++ toString r.2
   | ["atomic", old, cs, fa] =>
     let o := if old = "-" then none else some old
     let f := if fa = "-" then none else fa.toNat?
